@@ -18,6 +18,7 @@ type check struct {
 var registry = map[string]check{
 	"C01": {"model_checking", checks.C01},
 	"C02": {"model_checking", checks.C02},
+	"C03": {"model_checking", checks.C03},
 	"C04": {"model_checking", checks.C04},
 	"C05": {"model_checking", checks.C05},
 	"C06": {"model_checking", checks.C06},
